@@ -399,11 +399,17 @@ def _width_bucket(x, b1, b2, n):
         if x >= b2:
             return i64(n + 1)
         return int(math.floor(n * (x - b1) / (b2 - b1))) + 1
+    # descending bounds: the SQL-standard reading (PostgreSQL) and Trino's mirror-image computation agree except exactly on bucket edges
+    if isinf(x):
+        return 0 if x > 0 else i64(n + 1)
+    pos = n * (b1 - x) / (b1 - b2)
+    if x == b1 or x == b2 or pos == math.floor(pos):
+        raise Unspecified('operand on a bucket edge of a descending histogram')
     if x > b1:
         return 0
-    if x <= b2:
+    if x < b2:
         return i64(n + 1)
-    return int(math.floor(n * (b1 - x) / (b1 - b2))) + 1
+    return int(math.floor(pos)) + 1
 
 
 reg('WIDTH_BUCKET', 'WIDTH_BUCKET', (Dom('dbl', [-1.5, -0.0, 0.0, 0.5, 2.0, 5.5, 10.0, 1e308, NAN, INF], 'operand'), Dom('dbl', [0.0, 10.0], 'bound'),
@@ -1336,6 +1342,8 @@ reg('TO_ISO8601/date', 'TO_ISO8601', ('date',), lambda d: d.isoformat())
 def _from_iso_date(s):
     m = re.fullmatch(r'(\d{4})-(\d{2})-(\d{2})', s)
     if not m:
+        if re.fullmatch(r'\d{4}-\d{1,2}-\d{1,2}', s) or 'T' in s:
+            raise Unspecified('lenient forms (unpadded fields, trailing time) - the ISO parser of Trino is more permissive than the grammar in the documentation')
         if re.fullmatch(r'\d{4}-W\d{2}(-\d)?|\d{4}-\d{3}|\d{4}(-\d{2})?|\d{8}', s):
             raise Unspecified('other ISO 8601 date forms')
         raise DomainError('not an ISO 8601 date')
